@@ -69,7 +69,7 @@ def compare(ctx, items, stats, tag):
         stats["impl_verdicts"][r["verdict"] + (":" + r["cls"] if r["cls"] else "")] += 1
         if r["verdict"] == "pre":
             stats["pre"] += 1
-        elif r not in [t["impl"] for t in todo[:0]] and (not r.get("dump") or r["unmodelled"]):
+        elif not r.get("dump") or r["unmodelled"]:
             stats["unmodelled"] += 1
             for u in r["unmodelled"]:
                 stats["unmodelled_reasons"][u] += 1
@@ -115,7 +115,10 @@ def compare(ctx, items, stats, tag):
 
 def run(ctx) -> int:
     generate(ctx)
+    import time
+    t0 = time.time()
     info = ctx.coq_props()
+    t_proofs = round(time.time() - t0, 1)
     if not info["ok"]:
         ctx.report("proof:" + str(info["failed"]), "proof-broken", str(info["failed"]),
                    {"log": info["log"][-3000:]}, found_input=False)
@@ -136,7 +139,7 @@ def run(ctx) -> int:
     ncorpus = len(items)
 
     # ---- generated programs --------------------------------------------------------------
-    n = 1500 if ctx.quick else 24000
+    n = 1000 if ctx.quick else 24000
     rng = vlib.rng(ctx.seed, "programs")
     fns = [gen_prog.gen_function(rng, f"f{i}") for i in range(n)]
     texts = [gen_prog.render(f) for f in fns]
@@ -175,7 +178,8 @@ def run(ctx) -> int:
         blocks_histogram={str(k): v for k, v in sorted(stats["blocks_hist"].items())},
         rejections_with_several_candidate_places=stats["multi_candidate"],
         disagreements=stats["disagreements"], search_unsound=stats["unsound"], search_incomplete=stats["incomplete"],
-        search_boundary_while_true=stats["boundary_while_true"], samples=samples)
+        search_boundary_while_true=stats["boundary_while_true"], samples=samples,
+        seconds={"proofs": t_proofs, "total": round(time.time() - t0, 1)})
     return ctx.finish(LEVEL, cov, [
         "the checked CFG handed to check_cfg_linearity is produced by the real front end; its typing invariants (rows match, places defined) are relied on, not proved here",
         "AlreadyUsedError and BorrowSubPlaceUsedError are compared as one class; when several places violate, the implementation's choice must be among the model's candidates"])
